@@ -28,6 +28,7 @@ THEOREMS = [
     'C12.locale_texts_ok', 'C12.sentLine_le', 'C12.action_reply_single', 'C12.replyCall_normal', 'C12.unchecked_counterexample',
     'C12.mores_off_single', 'C12.nested_arg', 'C12.fits_512_call', 'C12.storeMask_cases', 'C12.nested_keywords_leak',
     'C12.relayed_len', 'C12.fits_512_relayed', 'C12.stale_belief_overflows',
+    'C12.byteTextWrap_total', 'C12.ircWrap_total', 'C12.reply_total', 'C12.attrs_reset_between_replies', 'C12.same_queue_order',
     # lean/LimnoriaModel/C12/LinkC06.lean: blen = C06.utf8Len = driver bytes (C11), sentLine = C06.truncate
     'C12.blen_eq_driver_bytes', 'C12.takeBytes_eq_cutToBytes', 'C12.limits_agree', 'C12.sentLine_eq_truncate',
     'C12.sentLine_driver_bytes', 'C12.relayed_driver_bytes', 'C12.makeReply_command',
@@ -44,7 +45,7 @@ RULE = ('pure level: seeded strings over an alphabet of ASCII words, digits, com
         'tabs and other blanks, unbreakable words; ops munge/split/btw/parse/ctx/wrap with sizes 4..120. live level: a real '
         'irclib.Irc + Misc + synthetic VtLong replies with the stored text (1..60 chunks) to channel/private requesters, with '
         'withNickPrefix on/off, private=/notice=/to= keywords, bot hostmasks of 20..90 bytes, reply.mores.length 0 or 45..200, '
-        'maximum 1..60, instant 1..4, Misc.mores 1..3, explicit lengths 64..200 (so that at least 4 bytes remain after the reserve in every locale), followed by more until exhausted; in 45 % of the cases a second caller (other user@host) issues more <A> / more at random points and a third caller shares A\'s user@host; a targeted stream of single unbreakable multi-byte words long enough to be truncated, with the bot hostmask length swept over every residue of the character size. Non-trivial: the case took at least one '
+        'maximum 1..60, instant 1..4, Misc.mores 1..3, explicit lengths 1..200 (the small ones leave no room after the suffix reserve: byteTextWrap then works with its minimum of 4 bytes), followed by more until exhausted; in 45 % of the cases a second caller (other user@host) issues more <A> / more at random points and a third caller shares A\'s user@host; a targeted stream of single unbreakable multi-byte words long enough to be truncated, with the bot hostmask length swept over every residue of the character size. Non-trivial: the case took at least one '
         'non-default branch (split word, re-opened context, colour parse, truncation, >1 chunk, …); distinct = distinct input.')
 
 F_CUT = 'C12-cut-inside-colour-code'
@@ -108,9 +109,7 @@ def _classify_wrap(I, s, length):
     out = set()
     p = I.ircutils.FormatParser(s)
     p.parse()
-    size = length - p.max_context_size
-    if size < 4:
-        return out
+    size = max(length - p.max_context_size, 4)     # byteTextWrap's own minimum
     lines = I.utils.str.byteTextWrap(s, size)
     # theorems visible_text_clean / fits_512_clean: when no line after the first begins with a digit or a
     # comma the property is PROVED for the model — no finding class may excuse a failure there
@@ -248,15 +247,16 @@ def pure_cases(I, r, n, B, kinds=('munge', 'split', 'btw', 'parse', 'ctx', 'wrap
                   ['split\t%d\t%s' % (size, wire.enc(w))])
         elif kind == 'btw':
             s = gen_text(r, r.randint(0, 25), fmt=0.0)
-            size = r.randint(4, 60)
+            size = r.randint(4, 60) if r.random() < 0.8 else r.randint(0, 3)
             ch = I.chunks(s)
             res, err = safe_call(us.byteTextWrap, s, size)
             impl = err or ('ok\t' + wire.enc_list(res))
-            ok = err is None and ''.join(res) == I.munge(s) and all(blen(l) <= size for l in res) and \
+            ok = err is None and ''.join(res) == I.munge(s) and all(blen(l) <= max(size, 4) for l in res) and \
                 (all(res) or not s)
             tags = ['btw']
             if any(blen(c) > size for c in ch): tags.append('btw:split-word')
             if res and len(res) > 1: tags.append('btw:multi-line')
+            if size < 4: tags.append('btw:size-below-4')
             if any(ord(c) > 127 for c in s): tags.append('btw:multibyte')
             B.add(Case({'op': 'btw', 's': s, 'size': size}, impl=impl, oracle_ok=ok, kind='pure-btw', tags=tags,
                        oracle_msg='' if ok else 'byteTextWrap(%r, %d) = %r %s: lines must concatenate to the munged text and hold at most %d bytes' % (s, size, res, err, size)),
@@ -662,7 +662,12 @@ def live_case(I, L, inp, kind='live'):
             inp.pop('owner', None)
     has_pre = bool(inp.get('pre')) and inp.get('shape', 'reply') in ('reply', 'action')
     pre_call = call_fields(L, inp, kw_override=inp['pre']['kw']) if has_pre else None
-    first, stored, steps, spy, T = L.run(inp, T)
+    try:
+        first, stored, steps, spy, T = L.run(inp, T)
+    except RuntimeError as e:
+        # the command never came back (alarm): reported as a failing input, nothing to compare
+        case = Case(inp, impl=None, oracle_ok=False, oracle_msg=str(e), kind=kind, tags=('live', 'live:hang'))
+        return case, 'clear', (lambda p: ['clear']), (lambda p, o: None)
     pre_msgs = []
     if has_pre:
         # the first reply of the invocation: one unchecked message, then the reply under test
@@ -703,7 +708,7 @@ def live_case(I, L, inp, kind='live'):
         parts.append(shape)
     elif spy:
         s1, wl, _ = spy[0]
-        parts.append('chunked\t%s\t%d' % (wire.enc(s1), wl))
+        parts.append('chunked\t%s\t%d' % (wire.enc(s1), max(wl, 0)))     # a negative length is clamped like 0
     else:
         s1 = None
         parts.append('single')
@@ -794,6 +799,11 @@ def live_case(I, L, inp, kind='live'):
         else:
             allowed = eff['length']
             limit = max(MAX_WIRE, frame + allowed) if frame + allowed > MAX_WIRE else MAX_WIRE
+            if spy and spy[0][1] < 4 + 12:
+                # the length leaves (almost) nothing after the suffix reserve: lines have byteTextWrap's minimum
+                # of 4 bytes plus reserve and formatting, which may exceed the configured length (never 512 here)
+                tags.append('live:length-leaves-no-room')
+                limit = MAX_WIRE
             tags.append('live:explicit-length')
             if frame + allowed > MAX_WIRE: tags.append('live:length-makes-512-impossible')
         over = [(w, m) for w, m in zip(wirelens, delivered) if w > limit]
@@ -919,7 +929,7 @@ def live_case(I, L, inp, kind='live'):
 
 def gen_live_input(r, thorough=False):
     cfg = {}
-    cfg['length'] = 0 if r.random() < 0.55 else r.randint(64, 200)
+    cfg['length'] = 0 if r.random() < 0.55 else r.choice([r.randint(64, 200), r.randint(64, 200), r.randint(1, 63)])
     cfg['maximum'] = r.choice([1, 2, 3, 5, 10, 50, 50, 50, 60])
     cfg['instant'] = r.choice([1, 1, 1, 2, 3, 4])
     cfg['batch'] = r.choice([1, 1, 1, 2, 3])
@@ -967,13 +977,13 @@ def gen_live_input(r, thorough=False):
         cfg['nestedmax'] = r.choice([50, 300, 2000, 512 * 256])
     if r.random() < 0.25:
         # values set for one channel: the channel of the message, the channel given with to=, or another one
-        vals = {'length': r.choice([0, 0, r.randint(64, 200)]), 'maximum': r.choice([1, 3, 50]), 'instant': r.choice([1, 2]),
+        vals = {'length': r.choice([0, 0, r.randint(64, 200), r.randint(1, 63)]), 'maximum': r.choice([1, 3, 50]), 'instant': r.choice([1, 2]),
                 'nickprefix': r.random() < 0.5, 'withnotice': r.random() < 0.5, 'inprivate': r.random() < 0.2,
                 'mores': r.random() >= 0.1, 'errnotice': r.random() < 0.5, 'errprivate': r.random() < 0.3}
         cfg['chan'] = {'name': r.choice([target if target.startswith('#') else '#chan', '#other', '#elsewhere']), 'vals': vals}
     if r.random() < 0.12:
         def some_vals():
-            return {'length': r.choice([0, 0, r.randint(64, 200)]), 'maximum': r.choice([2, 7, 50]), 'instant': r.choice([1, 3]),
+            return {'length': r.choice([0, 0, r.randint(64, 200), r.randint(20, 63)]), 'maximum': r.choice([2, 7, 50]), 'instant': r.choice([1, 3]),
                     'nickprefix': r.random() < 0.5, 'withnotice': r.random() < 0.5, 'inprivate': r.random() < 0.2,
                     'mores': True, 'errnotice': r.random() < 0.5, 'errprivate': r.random() < 0.3}
         k3 = r.random()
